@@ -288,4 +288,21 @@ META["C04"] = {
     "assumptions": ["one post-call history (everything rebound/deleted/mutated)"],
 }
 
+META["C05"] = {
+    "level": "exploration",
+    "level_text": "Bounded contract check on the real code: 50 lambdas (compiled from a generated "
+    "module) calling 23 captured single-return helpers / lambdas — bodies that are a bare "
+    "parameter, arithmetic, conditionals, projections, nested lambdas re-using a parameter name, "
+    "operators over a sequence argument, helpers calling helpers to depth 3, docstrings, defaults — "
+    "with positional / keyword / re-ordered / defaulted call shapes and arguments that mention names "
+    "bound inside the helper; the emitted lambda is evaluated with the reference semantics and "
+    "compared with Python calling the helper.",
+    "level_note": "Bounded stand-in (source recovery and closure inspection are unmodelled "
+    "externals).",
+    "technique": "bounded contract check of the helper-inlining contract on generated source modules, oracle = Python calling the helper (labelled stand-in)",
+    "p_keys": False,
+    "explanation": "bounded only",
+    "assumptions": ["helper corpus bounded as listed"],
+}
+
 NOT_APPLICABLE = {}
